@@ -50,6 +50,7 @@ import PyhamModel.Lemmas.Meaning
 import PyhamModel.Lemmas.FamilyProfile
 import PyhamModel.Lemmas.Iso
 import PyhamModel.Lemmas.IsoCounts
+import PyhamModel.Lemmas.IsoWF
 import PyhamModel.Lemmas.FilterAbsent
 import PyhamModel.Lemmas.Interleave
 namespace Pyham.Props
@@ -545,6 +546,43 @@ theorem C14_isomorphic_analyses (H : Ham) :
     (∀ f : List Node → List Node, (∀ l, (f l).Perm l) → LocIso H (H.reorder f) (Node.reorder f)) :=
   ⟨LocIso.refl H, fun H' hp hg => LocIso.of_tops_perm H H' hp hg, fun k => LocIso.of_renumber H k,
    fun f hf => LocIso.of_reorder H f hf⟩
+
+/-- **the order of the members of any group does not matter** (self-contained form): for a well-formed analysis `H` and any
+    rule `f` that re-orders children lists, the re-ordered analysis is well formed and isomorphic to `H`, every comparison has
+    the same six numbers, and the whole-dataset tree profile is the same at every node.  (The clusters themselves are the
+    images under `Node.reorder f`: `C14_comparisons_respect_isomorphism`.) -/
+theorem C14_member_order_irrelevant (H : Ham) (hw : H.WFc) (f : List Node → List Node) (hf : ∀ l, (f l).Perm l) :
+    (H.reorder f).WFc ∧ LocIso H (H.reorder f) (Node.reorder f) ∧
+    (∀ a d, (hogsMap (H.reorder f) a d).counts = (hogsMap H a d).counts) ∧
+    (∀ t, profileFullAt (H.reorder f) t = profileFullAt H t) :=
+  ⟨WFc_reorder H hw f hf, LocIso.of_reorder H f hf,
+   fun a d => iso_counts (LocIso.of_reorder H f hf) hw (WFc_reorder H hw f hf) a d,
+   fun t => iso_profile (LocIso.of_reorder H f hf) hw (WFc_reorder H hw f hf) (fun _ => rfl) t⟩
+
+/-- **the order of the families does not matter** (self-contained form) -/
+theorem C14_family_order_irrelevant (H H' : Ham) (hw : H.WFc) (hp : H'.tops.Perm H.tops) (hg : H'.genes = H.genes)
+    (ht : H'.tree = H.tree) (hr : H'.reg = H.reg) :
+    H'.WFc ∧ (∀ a d, (hogsMap H' a d).counts = (hogsMap H a d).counts) ∧
+    (∀ a d n, n ∈ (hogsMap H' a d).gain ↔ n ∈ (hogsMap H a d).gain) ∧
+    (∀ a d x, x ∈ (hogsMap H' a d).loss ↔ x ∈ (hogsMap H a d).loss) ∧
+    (∀ a d p, p ∈ (hogsMap H' a d).retained ↔ p ∈ (hogsMap H a d).retained) ∧
+    (∀ t, profileFullAt H' t = profileFullAt H t) := by
+  have hw' := WFc_of_tops_perm H H' hw hp hg
+  have hi := LocIso.of_tops_perm H H' hp hg
+  refine ⟨hw', fun a d => iso_counts hi hw hw' a d, ?_, ?_, ?_, ?_⟩
+  · intro a d n
+    rw [iso_gain hi a d n]
+    exact ⟨fun ⟨m, hm, e⟩ => by rw [e]; exact hm, fun hm => ⟨n, hm, rfl⟩⟩
+  · intro a d x
+    rw [iso_loss hi hw hw' a d x]
+    exact ⟨fun ⟨m, hm, e⟩ => by rw [e]; exact hm, fun hm => ⟨x, hm, rfl⟩⟩
+  · intro a d p
+    rw [iso_retained hi hw hw' a d p]
+    exact ⟨fun ⟨m, hm, e⟩ => by rw [e]; exact hm, fun hm => ⟨p, hm, rfl⟩⟩
+  · intro t
+    refine iso_profile hi hw hw' (fun t => ?_) t
+    unfold Ham.genomeSize
+    rw [ht, hg, hr]
 
 /-- **nested vs flat paralogGroups** (a multi-copy duplication written as directly nested paralogGroups or as
     one flat paralogGroup): if the flattened spelling of a file loads, the nested spelling loads to the SAME
